@@ -12,7 +12,7 @@ TB = ("Lean 4.33.0 kernel + Mathlib v4.33.0; axioms propext/Classical.choice/Quo
       "AST; Python/JAX/XLA/IEEE-754 runtime modelled, not verified.")
 
 COMMON_NOTE = (" The theorem layer covers the single-determinant kinds (rhf, uhf, each NOCI determinant) at the first-quantised level "
-               "(Slater coefficients = minors, one-body operators = column derivations; DESIGN §10 fallback); multi-determinant / CI kinds (except determinant-list, CISD, UCISD and GCISD overlaps, proved) are "
+               "(Slater coefficients = minors, one-body operators = column derivations; DESIGN §10 fallback); for the multi-determinant / CI kinds the overlap formulas are proved (C01, C11) while their energies and force biases are "
                "validated against an explicit Fock-space state (harness/trials.py + fock.py), not proved. Walkers with vanishing reference "
                "overlap (outside the CI formulas' domain) and exact pivot ties (JAX det defect) are avoided and counted.")
 
@@ -114,7 +114,7 @@ CLAIMED = {
         text=("Lean theorems for every dimension: Cauchy-Binet (proved here; not in Mathlib) gives det(C^H W) = sum over occupation strings of "
               "conj(minor C) minor W, i.e. the rhf/uhf overlap is the many-body inner product for every complex non-orthonormal walker and trial; "
               "restricted = unrestricted on equal blocks; linear combinations (NOCI); batched = per-walker map for every batch split; C C^H of an "
-              "orthonormal determinant is <a+_q a_p>. determinant lists (multislater): the Wick-type formula equals sum_i c_i <D_i|phi> for every list, reference and excitation rank (Props/C11 multislater_overlap); GHF: the stacked matrix is C^T diag(W_up, W_dn), spin-pure GHF = UHF. Restricted CISD (CISD, cisd, cisd_faster): the closed form (1 + 2 o1 + o2) o0 equals the explicit expansion over reference, single and double in-place excitations for every amplitude tensor (cisd_overlap_is_manybody); unrestricted CISD (UCISD, ucisd) likewise for same-spin amplitudes antisymmetric in the virtual indices (ucisd_overlap_is_manybody); generalised CISD (GCISD) with no symmetry assumption (gcisd_overlap_is_manybody). Tied to the code by rhf/uhf overlaps vs the same Lean definitions executed at Q(i), and for all "
+              "orthonormal determinant is <a+_q a_p>. determinant lists (multislater): the Wick-type formula equals sum_i c_i <D_i|phi> for every list, reference and excitation rank (Props/C11 multislater_overlap); GHF: the stacked matrix is C^T diag(W_up, W_dn), spin-pure GHF = UHF. Restricted CISD (CISD, cisd, cisd_faster): the closed form (1 + 2 o1 + o2) o0 equals the explicit expansion over reference, single and double in-place excitations for every amplitude tensor (cisd_overlap_is_manybody); unrestricted CISD (UCISD, ucisd) likewise for same-spin amplitudes antisymmetric in the virtual indices (ucisd_overlap_is_manybody); generalised CISD (GCISD) with no symmetry assumption (gcisd_overlap_is_manybody); THC-factorised CISD (CISD_THC) = CISD for the contracted tensor (cisd_thc_overlap_is_manybody) - so the overlap formula of every one of the 12 trial classes is a theorem. Tied to the code by rhf/uhf overlaps vs the same Lean definitions executed at Q(i), and for all "
               "12 trial classes (both entry points, batched order, density matrices) against the explicit second-quantised state."),
         design_ref="DESIGN.md §5/C01",
         technique="Lean 4 proof (Cauchy-Binet over increasing strings) + exact Q(i) correspondence + Fock-space spec comparison",
